@@ -202,6 +202,7 @@ def run(res: Results, idx: Index, tier: str) -> None:
             n_x += 1
             res.add("R-C16d", inst.status, inst.site, f"R-C03f::{inst.key}", f"[C03 R-C03f] {inst.detail}", inst.func)
     res.analysed["cross_referenced_rejections"] = n_x
+    rule_e(res, idx)
     if n_x < 4:
         raise AnalysisError(f"only {n_x} rejection instances cross-referenced from C06 R-C06b / C04 R-C04b (expected >= 4)")
 
@@ -211,3 +212,49 @@ def _parents(n: ast.AST):
     while cur is not None:
         yield cur
         cur = getattr(cur, "parent", None)
+
+
+# ---------------------------------------------------------------------------------------------- R-C16e
+def rule_e(res: Results, idx: Index) -> None:
+    """`return` / `break` / `continue` inside a `finally:` block discards the exception in flight: the `try` (and every
+    `with` that wraps a generator-based context manager built on it) completes normally and the failure is silent.  Every
+    `finally` block of the product (converter, plugins, user interface) is an instance; a jump statement in it is allowed
+    only inside a nested function / loop that it does not leave."""
+    res.rule("R-C16e", "no `finally:` block of the conversion path leaves through return / break / continue (which would discard the exception in flight)", floor=8)
+    n = 0
+    for m in idx.product_modules():
+        for fi in list(m.funcs.values()):
+            for t in walk_no_nested(fi.node):
+                if not isinstance(t, ast.Try) or not t.finalbody:
+                    continue
+                n += 1
+                key = f"{m.rel}::{fi.qualname}::finally#{sum(1 for x in walk_no_nested(fi.node) if isinstance(x, ast.Try) and x.finalbody and x.lineno < t.lineno)}"
+                bad = None
+
+                def scan(stmts, in_loop: bool):
+                    nonlocal bad
+                    for st in stmts:
+                        if bad is not None:
+                            return
+                        if isinstance(st, (ast.FunctionDef, ast.AsyncFunctionDef, ast.ClassDef)):
+                            continue
+                        if isinstance(st, ast.Return):
+                            bad = st
+                            return
+                        if isinstance(st, (ast.Break, ast.Continue)) and not in_loop:
+                            bad = st
+                            return
+                        for fld in ("body", "orelse", "finalbody"):
+                            sub = getattr(st, fld, None)
+                            if isinstance(sub, list):
+                                scan(sub, in_loop or (isinstance(st, (ast.For, ast.While, ast.AsyncFor)) and fld == "body"))
+                        for h in getattr(st, "handlers", []) or []:
+                            scan(h.body, in_loop)
+                scan(t.finalbody, False)
+                site = f"{m.rel}:{t.finalbody[0].lineno}"
+                if bad is not None:
+                    res.violation("R-C16e", f"{m.rel}:{bad.lineno}", key, f"`{type(bad).__name__.lower()}` at line {bad.lineno} leaves the finally block of the try at line {t.lineno}: an exception raised in the "
+                                  f"protected block (a failed lowering, an unsupported construct) is discarded and the caller continues as if it had succeeded", fi.qualname)
+                else:
+                    res.ok("R-C16e", site, key, "finally block falls through (re-raises the exception in flight)", fi.qualname)
+    res.analysed["finally_blocks"] = n
